@@ -7,6 +7,8 @@ pub mod shard;
 pub mod shard_ops;
 pub mod deduper;
 pub mod session;
+pub mod cache_seq;
+pub mod cache_conc;
 pub mod reconstruct;
 pub mod singleflight;
 pub mod interp_search;
@@ -21,6 +23,8 @@ pub fn run(suite: &str, ctx: &mut Ctx) -> bool {
         "keyed" => shard_ops::run_keyed(ctx),
         "singleflight" => singleflight::run(ctx),
         "reconstruct" => reconstruct::run(ctx),
+        "cache_seq" => cache_seq::run(ctx),
+        "cache_conc" => cache_conc::run(ctx),
         "session" => session::run_parent(ctx),
         "session-child" => session::run_child(ctx),
         "deduper" => deduper::run_parent(ctx),
